@@ -76,7 +76,7 @@ def zstr(ctx, name, nonempty=True, maxlen=None, charset=None):
         if charset is not None:
             ctx.assume(z3.InRe(t, charset))
         return ZStr(t)
-    return ctx.values[name]
+    return ctx._val(name) if hasattr(ctx, "_val") else ctx.values[name]
 
 
 def numstr(ctx, name, lo=0, hi=None):
